@@ -20,154 +20,221 @@ Inductive sev := IsError | IsWarning | IsDynamic.
 (* BlockParser::error / SourceReport::error (assert an Error), ::warn (assert a Warning), SourceReport::push *)
 Inductive push := ByError (receiver : string) | ByWarn (receiver : string) | ByPush (receiver : string).
 Record site := Site { site_stage : stage; site_file : string; site_fn : string; site_how : string;
-                      site_sev : sev; site_pushes : list push; site_ord : nat; site_msg : string }.
+                      site_sev : sev; site_pushes : list push; site_ord : nat; site_ctor : string;
+                      site_msg : string }.
 Record key := Key { key_stage : stage; key_file : string; key_fn : string; key_how : string;
                     key_sev : sev; key_pushes : list push; key_ord : nat }.
 Definition site_key (s : site) : key :=
   Key (site_stage s) (site_file s) (site_fn s) (site_how s) (site_sev s) (site_pushes s) (site_ord s).
 Definition sites : list site := [
   Site AtAnalysis "event_consumer" "error!" "SourceDiag::error" IsError [] 0
-    "<$msg>";
+    "Ctor" "<$msg>";
   Site AtAnalysis "event_consumer" "error!" "SourceDiag::unlabeled" IsError [] 1
-    "<$msg>";
+    "Ctor" "<$msg>";
   Site AtAnalysis "event_consumer" "warning!" "SourceDiag::warning" IsWarning [] 0
-    "<$msg>";
+    "Ctor" "<$msg>";
   Site AtAnalysis "event_consumer" "warning!" "SourceDiag::unlabeled" IsWarning [] 1
-    "<$msg>";
+    "Ctor" "<$msg>";
   Site AtAnalysis "event_consumer" "parse_events" "forward" IsError [ByError "self.ctx"] 0
-    "<e>";
+    "Forward" "<e>";
   Site AtAnalysis "event_consumer" "parse_events" "forward" IsDynamic [ByPush "self.ctx"] 1
-    "<e>";
+    "Forward" "<e>";
   Site AtAnalysis "event_consumer" "parse_events" "forward" IsWarning [ByWarn "self.ctx"] 2
-    "<w>";
+    "Forward" "<w>";
   Site AtAnalysis "event_consumer" "parse_events" "warning!" IsWarning [ByWarn "self.ctx"] 3
-    "The '>>' syntax for metadata is deprecated, use a YAML frontmatter";
+    "AKind KDeprecated" "The '>>' syntax for metadata is deprecated, use a YAML frontmatter";
   Site AtAnalysis "event_consumer" "process_frontmatter" "error!" IsError [ByError "self.ctx"] 0
-    "<err.to_string()>";
+    "AKind KYamlError" "<err.to_string()>";
   Site AtAnalysis "event_consumer" "process_frontmatter" ".into_source_diag" IsDynamic [ByPush "self.ctx"] 1
-    "Invalid metadata entry";
+    "Unmodelled callback_why" "Invalid metadata entry";
   Site AtAnalysis "event_consumer" "process_frontmatter" "warning!" IsWarning [ByWarn "self.ctx"] 2
-    "Unsupported value for key: '{}'";
+    "AKind KStdEntryYaml" "Unsupported value for key: '{}'";
   Site AtAnalysis "event_consumer" "process_frontmatter" "warning!" IsWarning [ByWarn "self.ctx"] 3
-    "Time overriden";
+    "AKind KTimeOverridenYaml" "Time overriden";
   Site AtAnalysis "event_consumer" "metadata" "error!" IsError [ByError "self.ctx"] 0
-    "Invalid value for config key '{key_t}': {value_t}";
+    "AKind KInvalidConfigValue" "Invalid value for config key '{key_t}': {value_t}";
   Site AtAnalysis "event_consumer" "metadata" "warning!" IsWarning [ByWarn "self.ctx"] 1
-    "Unknown config metadata key: {key_t}";
+    "AKind KUnknownConfigKey" "Unknown config metadata key: {key_t}";
   Site AtAnalysis "event_consumer" "metadata" ".into_source_diag" IsDynamic [ByPush "self.ctx"] 2
-    "Invalid metadata entry";
+    "Unmodelled callback_why" "Invalid metadata entry";
   Site AtAnalysis "event_consumer" "metadata" "warning!" IsWarning [ByWarn "self.ctx"] 3
-    "Unsupported value for key: '{}'";
+    "AKind KStdEntryMeta" "Unsupported value for key: '{}'";
   Site AtAnalysis "event_consumer" "time_override_check" "warning!" IsWarning [ByWarn "self.ctx"] 0
-    "Time overridden";
+    "AKind KTimeOverridden" "Time overridden";
   Site AtAnalysis "event_consumer" "in_step" "warning!" IsWarning [ByWarn "self.ctx"] 0
-    "Ignoring text in define components mode";
+    "AKind KIgnoredText" "Ignoring text in define components mode";
   Site AtAnalysis "event_consumer" "in_text" "warning!" IsWarning [ByWarn "self.ctx"] 0
-    "Ignoring {c} in text mode";
+    "AKind KIgnoredComponent" "Ignoring {c} in text mode";
   Site AtAnalysis "event_consumer" "ingredient" "error!" IsError [ByError "self.ctx"] 0
-    "Conflicting modifiers with intermediate preparation reference";
+    "AKind KInterModifiers" "Conflicting modifiers with intermediate preparation reference";
   Site AtAnalysis "event_consumer" "ingredient" "forward" IsError [ByError "self.ctx"] 1
-    "<error>";
+    "Forward" "<error>";
   Site AtAnalysis "event_consumer" "ingredient" "warning!" IsWarning [ByWarn "self.ctx"] 2
-    "Incompatible units prevent calculating total amount";
+    "AKind KIncompatibleUnits" "Incompatible units prevent calculating total amount";
   Site AtAnalysis "event_consumer" "ingredient" ".into_source_diag" IsDynamic [ByPush "self.ctx"] 3
-    "Referenced recipe not found: {}";
+    "Unmodelled callback_why" "Referenced recipe not found: {}";
   Site AtAnalysis "event_consumer" "resolve_intermediate_ref" "error!" IsError [] 0
-    "{INVALID}: number is 0";
+    "AKind KInterZero" "{INVALID}: number is 0";
   Site AtAnalysis "event_consumer" "resolve_intermediate_ref" "error!" IsError [] 1
-    "{INVALID}: relative reference to self";
+    "AKind KInterZero" "{INVALID}: relative reference to self";
   Site AtAnalysis "event_consumer" "resolve_intermediate_ref" "error!" IsError [] 2
-    "{INVALID}: value out of bounds";
+    "AKind KInterBounds" "{INVALID}: value out of bounds";
   Site AtAnalysis "event_consumer" "timer" "error!" IsError [ByError "self.ctx"] 0
-    "Timer value is text: {}";
+    "AKind KTimerValueText" "Timer value is text: {}";
   Site AtAnalysis "event_consumer" "timer" "error!" IsError [ByError "self.ctx"] 1
-    "Timer unit is not time: {unit}";
+    "AKind KTimerUnitNotTime" "Timer unit is not time: {unit}";
   Site AtAnalysis "event_consumer" "timer" "error!" IsError [ByError "self.ctx"] 2
-    "Unknown timer unit: {unit_text}";
+    "AKind KTimerUnitUnknown" "Unknown timer unit: {unit_text}";
   Site AtAnalysis "event_consumer" "value" "warning!" IsWarning [ByWarn "self.ctx"] 0
-    "Unnecessary scaling lock modifier";
+    "AKind KScalingLock" "Unnecessary scaling lock modifier";
   Site AtAnalysis "event_consumer" "resolve_reference" "error!" IsError [ByError "self.ctx"] 0
-    "Unsupported modifier combination with reference: {conflict}";
+    "AKind KConflictModifiers" "Unsupported modifier combination with reference: {conflict}";
   Site AtAnalysis "event_consumer" "resolve_reference" "warning!" IsWarning [ByWarn "self.ctx"] 1
-    "Redundant {redundant} modifier";
+    "AKind KRedundantModifier" "Redundant {redundant} modifier";
   Site AtAnalysis "event_consumer" "resolve_reference" "error!" IsError [ByError "self.ctx"] 2
-    "Reference not found: {}";
+    "AKind KRefNotFound" "Reference not found: {}";
   Site AtAnalysis "event_consumer" "note_reference_error" "error!" IsError [ByError "self.ctx"] 0
-    "Note not allowed in reference";
+    "AKind KNoteOnReference" "Note not allowed in reference";
   Site AtAnalysis "event_consumer" "conflicting_reference_quantity_error" "error!" IsError [ByError "self.ctx"] 0
-    "Conflicting component reference quantities";
+    "AKind KConflictQuantity" "Conflicting component reference quantities";
   Site AtAnalysis "event_consumer" "text_val_in_ref_warn" "warning!" IsWarning [ByWarn "self.ctx"] 0
-    "Text value may prevent calculating total amount";
+    "AKind KTextValueInRef" "Text value may prevent calculating total amount";
   Site AtAnalysis "mod" "into_source_diag" "SourceDiag::unlabeled" IsDynamic [] 0
-    "<message()>";
+    "Unmodelled callback_why" "<message()>";
   Site AtAny "error" "error" "SourceDiag{}" IsError [] 0
-    "<message.into()>";
+    "Ctor" "<message.into()>";
   Site AtAny "error" "warning" "SourceDiag{}" IsWarning [] 0
-    "<message.into()>";
+    "Ctor" "<message.into()>";
   Site AtAny "error" "unlabeled" "SourceDiag{}" IsDynamic [] 0
-    "<message.into()>";
+    "Ctor" "<message.into()>";
   Site AtParse "metadata" "metadata_entry" "warning!" IsWarning [ByWarn "block"] 0
-    "A metadata block is invalid and it will be a step";
+    "PCode D_META_INVALID" "A metadata block is invalid and it will be a step";
   Site AtParse "metadata" "metadata_entry" "error!" IsError [ByError "block"] 1
-    "Empty metadata key";
+    "PCode D_EMPTY_META_KEY" "Empty metadata key";
   Site AtParse "metadata" "metadata_entry" "warning!" IsWarning [ByWarn "block"] 2
-    "Empty metadata value for key: {}";
+    "PCode D_EMPTY_META_VALUE" "Empty metadata value for key: {}";
   Site AtParse "mod" "error!" "SourceDiag::error" IsError [] 0
-    "<$msg>";
+    "Ctor" "<$msg>";
   Site AtParse "mod" "warning!" "SourceDiag::warning" IsWarning [] 0
-    "<$msg>";
+    "Ctor" "<$msg>";
   Site AtParse "quantity" "parse_regular_quantity" "warning!" IsWarning [ByWarn "bp"] 0
-    "Empty quantity unit";
+    "PCode D_EMPTY_UNIT" "Empty quantity unit";
   Site AtParse "quantity" "parse_advanced_quantity" "forward" IsError [ByError "bp"] 0
-    "<err>";
+    "Forward" "<err>";
   Site AtParse "quantity" "parse_value" "forward" IsError [ByError "bp"] 0
-    "<err>";
+    "Forward" "<err>";
   Site AtParse "quantity" "text_value" "error!" IsError [ByError "bp"] 0
-    "Empty quantity value";
+    "PCode D_EMPTY_VALUE" "Empty quantity value";
   Site AtParse "quantity" "frac" "error!" IsError [] 0
-    "Division by zero";
+    "PCode D_DIV_ZERO" "Division by zero";
   Site AtParse "quantity" "int" "error!" IsError [] 0
-    "Error parsing integer number";
+    "PCode D_INT_PARSE" "Error parsing integer number";
   Site AtParse "quantity" "float" "error!" IsError [] 0
-    "Error parsing decimal number";
+    "Unmodelled float_why" "Error parsing decimal number";
   Site AtParse "section" "section" "warning!" IsWarning [ByWarn "block"] 0
-    "A section block is invalid and it will be a step";
+    "PCode D_SECTION_INVALID" "A section block is invalid and it will be a step";
   Site AtParse "step" "comp_body" "warning!" IsWarning [ByWarn "bp"] 0
-    "Invalid single word name, the component will be ignored";
+    "PCode D_SINGLE_WORD" "Invalid single word name, the component will be ignored";
   Site AtParse "step" "parse_modifiers" "error!" IsError [ByError "bp"] 0
-    "Duplicate modifier: {}";
+    "PCode D_DUP_MOD" "Duplicate modifier: {}";
   Site AtParse "step" "parse_intermediate_ref_data" "error!" IsError [ByError "bp"] 0
-    "{INVALID}: empty";
+    "PCode D_INTER_EMPTY" "{INVALID}: empty";
   Site AtParse "step" "parse_intermediate_ref_data" "error!" IsError [ByError "bp"] 1
-    "{INVALID}: wrong relative section order";
+    "PCode D_INTER_ORDER" "{INVALID}: wrong relative section order";
   Site AtParse "step" "parse_intermediate_ref_data" "error!" IsError [ByError "bp"] 2
-    "{INVALID}: value sign";
+    "PCode D_INTER_SIGN" "{INVALID}: value sign";
   Site AtParse "step" "parse_intermediate_ref_data" "error!" IsError [ByError "bp"] 3
-    "Invalid intermediate preparation reference";
+    "PCode D_INTER_INVALID" "Invalid intermediate preparation reference";
   Site AtParse "step" "parse_intermediate_ref_data" "error!" IsError [ByError "bp"] 4
-    "Error parsing integer number";
+    "PCode D_INTER_INT" "Error parsing integer number";
   Site AtParse "step" "parse_alias" "error!" IsError [ByError "bp"] 0
-    "Invalid {container}: multiple aliases";
+    "PCode D_MULTI_ALIAS" "Invalid {container}: multiple aliases";
   Site AtParse "step" "parse_alias" "error!" IsError [ByError "bp"] 1
-    "Invalid {container}: empty alias";
+    "PCode D_EMPTY_ALIAS" "Invalid {container}: empty alias";
   Site AtParse "step" "cookware" "error!" IsError [ByError "bp"] 0
-    "Invalid cookware quantity: unit";
+    "PCode D_COOKWARE_UNIT" "Invalid cookware quantity: unit";
   Site AtParse "step" "cookware" "error!" IsError [ByError "bp"] 1
-    "Invalid cookware modifiers: recipe modifier not allowed";
+    "PCode D_COOKWARE_RECIPE" "Invalid cookware modifiers: recipe modifier not allowed";
   Site AtParse "step" "timer" "error!" IsError [ByError "bp"] 0
-    "Invalid timer quantity: missing unit";
+    "PCode D_TIMER_NO_UNIT" "Invalid timer quantity: missing unit";
   Site AtParse "step" "timer" "error!" IsError [ByError "bp"] 1
-    "Invalid timer: missing quantity";
+    "PCode D_TIMER_NO_QTY" "Invalid timer: missing quantity";
   Site AtParse "step" "timer" "error!" IsError [ByError "bp"] 2
-    "Invalid timer: neither quantity nor name";
+    "PCode D_TIMER_NEITHER" "Invalid timer: neither quantity nor name";
   Site AtParse "step" "check_modifiers" "error!" IsError [ByError "bp"] 0
-    "Invalid {container}: modifiers not allowed";
+    "PCode D_MODS_NOT_ALLOWED" "Invalid {container}: modifiers not allowed";
   Site AtParse "step" "check_intermediate_data" "error!" IsError [ByError "bp"] 0
-    "Invalid {container}: intermediate preparation reference not allowed";
+    "PCode D_INTER_NOT_ALLOWED" "Invalid {container}: intermediate preparation reference not allowed";
   Site AtParse "step" "check_alias" "error!" IsError [ByError "bp"] 0
-    "Invalid {container}: alias not allowed";
+    "PCode D_ALIAS_NOT_ALLOWED" "Invalid {container}: alias not allowed";
   Site AtParse "step" "check_note" "warning!" IsWarning [ByWarn "bp"] 0
-    "A {container} cannot have a note, it will be text";
+    "PCode D_NOTE_WARN" "A {container} cannot have a note, it will be text";
   Site AtParse "step" "check_empty_name" "error!" IsError [ByError "bp"] 0
-    "Invalid {container} name: is empty"
+    "PCode D_EMPTY_NAME" "Invalid {container} name: is empty"
+].
+(* what is pinned (C07_diag_inventory): per (stage, file) the set of (severity, constructor of the models that
+   stands for the diagnostic: site_ctor), as sorted rows; "forward" pushes are left out.
+   C07_diag_summary_ok: these are exactly the (stage, file, severity, constructor) of [sites]. *)
+Definition summary : list (stage * string * sev * string) := [
+  (AtAnalysis, "event_consumer", IsDynamic, "Unmodelled callback_why");
+  (AtAnalysis, "event_consumer", IsError, "AKind KConflictModifiers");
+  (AtAnalysis, "event_consumer", IsError, "AKind KConflictQuantity");
+  (AtAnalysis, "event_consumer", IsError, "AKind KInterBounds");
+  (AtAnalysis, "event_consumer", IsError, "AKind KInterModifiers");
+  (AtAnalysis, "event_consumer", IsError, "AKind KInterZero");
+  (AtAnalysis, "event_consumer", IsError, "AKind KInvalidConfigValue");
+  (AtAnalysis, "event_consumer", IsError, "AKind KNoteOnReference");
+  (AtAnalysis, "event_consumer", IsError, "AKind KRefNotFound");
+  (AtAnalysis, "event_consumer", IsError, "AKind KTimerUnitNotTime");
+  (AtAnalysis, "event_consumer", IsError, "AKind KTimerUnitUnknown");
+  (AtAnalysis, "event_consumer", IsError, "AKind KTimerValueText");
+  (AtAnalysis, "event_consumer", IsError, "AKind KYamlError");
+  (AtAnalysis, "event_consumer", IsError, "Ctor");
+  (AtAnalysis, "event_consumer", IsWarning, "AKind KDeprecated");
+  (AtAnalysis, "event_consumer", IsWarning, "AKind KIgnoredComponent");
+  (AtAnalysis, "event_consumer", IsWarning, "AKind KIgnoredText");
+  (AtAnalysis, "event_consumer", IsWarning, "AKind KIncompatibleUnits");
+  (AtAnalysis, "event_consumer", IsWarning, "AKind KRedundantModifier");
+  (AtAnalysis, "event_consumer", IsWarning, "AKind KScalingLock");
+  (AtAnalysis, "event_consumer", IsWarning, "AKind KStdEntryMeta");
+  (AtAnalysis, "event_consumer", IsWarning, "AKind KStdEntryYaml");
+  (AtAnalysis, "event_consumer", IsWarning, "AKind KTextValueInRef");
+  (AtAnalysis, "event_consumer", IsWarning, "AKind KTimeOverridden");
+  (AtAnalysis, "event_consumer", IsWarning, "AKind KTimeOverridenYaml");
+  (AtAnalysis, "event_consumer", IsWarning, "AKind KUnknownConfigKey");
+  (AtAnalysis, "event_consumer", IsWarning, "Ctor");
+  (AtAnalysis, "mod", IsDynamic, "Unmodelled callback_why");
+  (AtAny, "error", IsDynamic, "Ctor");
+  (AtAny, "error", IsError, "Ctor");
+  (AtAny, "error", IsWarning, "Ctor");
+  (AtParse, "metadata", IsError, "PCode D_EMPTY_META_KEY");
+  (AtParse, "metadata", IsWarning, "PCode D_EMPTY_META_VALUE");
+  (AtParse, "metadata", IsWarning, "PCode D_META_INVALID");
+  (AtParse, "mod", IsError, "Ctor");
+  (AtParse, "mod", IsWarning, "Ctor");
+  (AtParse, "quantity", IsError, "PCode D_DIV_ZERO");
+  (AtParse, "quantity", IsError, "PCode D_EMPTY_VALUE");
+  (AtParse, "quantity", IsError, "PCode D_INT_PARSE");
+  (AtParse, "quantity", IsError, "Unmodelled float_why");
+  (AtParse, "quantity", IsWarning, "PCode D_EMPTY_UNIT");
+  (AtParse, "section", IsWarning, "PCode D_SECTION_INVALID");
+  (AtParse, "step", IsError, "PCode D_ALIAS_NOT_ALLOWED");
+  (AtParse, "step", IsError, "PCode D_COOKWARE_RECIPE");
+  (AtParse, "step", IsError, "PCode D_COOKWARE_UNIT");
+  (AtParse, "step", IsError, "PCode D_DUP_MOD");
+  (AtParse, "step", IsError, "PCode D_EMPTY_ALIAS");
+  (AtParse, "step", IsError, "PCode D_EMPTY_NAME");
+  (AtParse, "step", IsError, "PCode D_INTER_EMPTY");
+  (AtParse, "step", IsError, "PCode D_INTER_INT");
+  (AtParse, "step", IsError, "PCode D_INTER_INVALID");
+  (AtParse, "step", IsError, "PCode D_INTER_NOT_ALLOWED");
+  (AtParse, "step", IsError, "PCode D_INTER_ORDER");
+  (AtParse, "step", IsError, "PCode D_INTER_SIGN");
+  (AtParse, "step", IsError, "PCode D_MODS_NOT_ALLOWED");
+  (AtParse, "step", IsError, "PCode D_MULTI_ALIAS");
+  (AtParse, "step", IsError, "PCode D_TIMER_NEITHER");
+  (AtParse, "step", IsError, "PCode D_TIMER_NO_QTY");
+  (AtParse, "step", IsError, "PCode D_TIMER_NO_UNIT");
+  (AtParse, "step", IsWarning, "PCode D_NOTE_WARN");
+  (AtParse, "step", IsWarning, "PCode D_SINGLE_WORD")
 ].
